@@ -5544,6 +5544,15 @@ class Sha3_256(Instruction):
         super().__init__()
         self._version: int = 7
 
+    @property
+    def cost(self) -> int:
+        """cost of executing sha3_256 instruction.
+
+        Returns:
+            OpcodeCost of the instruction.
+        """
+        return 130
+
 
 class Vrf_verify(Instruction):
     """`vrf_verify s` verify the proof of message against public key.
